@@ -191,16 +191,17 @@ def scenarios(tier: str, depth: int):
         yield levels
 
 
-def modes(depth: int, tier: str):
+def modes(depth: int, tier: str, levels=()):
     out = [("normal",)]
-    excs = ["ValueError", "KeyboardInterrupt"] if (depth <= 3 or tier == "quick") else ["ValueError"]
+    big = depth == 4 and tier == "thorough" and any(len(s) > 1 for s in levels)
+    excs = ["ValueError"] if big else ["ValueError", "KeyboardInterrupt"]
     for e in excs:
         # the exception propagates through k = 1..depth contexts before the harness catches it
-        out += [(e, k) for k in range(1, depth + 1)]
+        out += [(e, k) for k in ((depth,) if big else range(1, depth + 1))]
     return out
 
 
-def assigns(depth: int, tier: str, mode):
+def assigns(depth: int, tier: str, mode, levels=()):
     full = [None] + [(lv, k) for lv in range(depth + 1) for k in KEYS]
     reduced = [None] + [(depth, k) for k in KEYS] + [(min(1, depth), "decimals"), (min(2, depth), "alias")]
     if depth == 1:
@@ -209,6 +210,8 @@ def assigns(depth: int, tier: str, mode):
         if depth == 4:
             return reduced
         return full if mode in (("normal",), ("ValueError", 1)) else reduced
+    if depth == 4 and any(len(s) > 1 for s in levels):
+        return [None, (depth, "atol")]  # depth 4 with two-setting contexts: exit paths only, one innermost assignment
     return full if depth <= 3 else reduced
 
 
@@ -227,8 +230,8 @@ def run_shard(tier: str, seed: int, shard):
     for idx, levels in enumerate(scenarios(tier, depth)):
         if idx % parts != part:
             continue
-        for mode in modes(depth, tier):
-            for assign in assigns(depth, tier, mode):
+        for mode in modes(depth, tier, levels):
+            for assign in assigns(depth, tier, mode, levels):
                 case = {"levels": [list(s) for s in levels], "mode": list(mode), "assign": list(assign) if assign else None}
                 ok = acc.guard(case, run_scenario, acc, seen, levels, mode, assign)
                 if not ok:
@@ -247,7 +250,8 @@ def summarize(tier: str, seed: int, merged: dict) -> dict:
     return {
         "rule": (
             "nestings of depth 1..4 of settings.context over subsets of the 7 settings (depth 1-2: all 128 subsets per "
-            f"level; depth 3-4: subsets of size <= {1 if tier == 'quick' else 2}) x exit mode (normal | ValueError or "
+            f"level; depth 3-4: subsets of size <= {1 if tier == 'quick' else 2}; thorough depth 4 with a two-setting context "
+            "explores only the normal exit, ValueError through all four contexts and one innermost assignment) x exit mode (normal | ValueError or "
             "KeyboardInterrupt raised in the innermost body and caught after k contexts, every k) x one direct assignment "
             "(none | any of the 7 settings at any level); invariant vars(settings)==model and the helper observations "
             "checked after every enter/assign/exit. states = distinct (open-context stack, settings) model states, "
